@@ -454,6 +454,7 @@ Proof.
     destruct (connection (set_xd s false)); [apply conn_shutdown_H|apply wp_ret]; hs; auto.
   - destruct (_ || _ || _ || _); [exact I|]. destruct (connection s); hs; auto.
   - destruct (dsnap s); [|exact I]. apply destroy_rest_H. hs. auto.
+  - destruct (_ || _ || _ || _); [exact I|]. destruct (k_chan s) as [[i [|]]|]; try exact I. destruct (_ || _ || _); exact I.
   - hs. auto.
   - destruct (k_chan s) as [[i [|]]|]; try exact I. destruct (k_dead s); [exact I|]. apply handleWrite_H; auto.
   - destruct (k_chan s) as [[i [|]]|]; try exact I. destruct (k_dead s); [exact I|]. apply handleError_H; auto.
